@@ -2,6 +2,8 @@ package rules
 
 import (
 	"fmt"
+	"os"
+	"sort"
 	"go/token"
 	"strings"
 
@@ -478,6 +480,69 @@ func runC17(c *core.Ctx) {
 			c.Decide(base && add, "C17-R4", "RoundTimeout|base(role)+cumulative(round)", c.P.Pos(ex.Ret.Pos()), "base and cumulative parts present", "the deadline lost its role base or its cumulative per-round allowance: "+clip(s))
 		}
 		c.Decide(anchored == 1, "C17-R4", "RoundTimeout|one slot-anchored return", c.P.Pos(f.Pos()), "1", "expected one slot-anchored return")
+		// the per-round allowance is cumulative: round·quick up to the threshold, then
+		// threshold·quick + (round − threshold)·slow (normal form, commutative operands sorted);
+		// anything smaller makes late rounds fire before their deadline
+		for _, ex := range exits {
+			n := a.D.D(ex.Ret.Results[0])
+			if !strings.Contains(n.String(), "time.Until(") {
+				continue
+			}
+			var phis []string
+			n.Walk(func(m *ens.Node) {
+				if m.K == "phi" {
+					var alts []string
+					for _, x := range m.A {
+						alts = append(alts, canonArith(x))
+					}
+					sort.Strings(alts)
+					phis = append(phis, strings.Join(alts, " | "))
+				}
+			})
+			want := "((p0.timeoutOptions.quick * time.Duration(p0.timeoutOptions.quickThreshold)) + (p0.timeoutOptions.slow * time.Duration(int((p2 - p0.timeoutOptions.quickThreshold))))) | (p0.timeoutOptions.quick * time.Duration(int(p2)))"
+			found := false
+			for _, p := range phis {
+				if p == want {
+					found = true
+				}
+			}
+			if os.Getenv("VERIF_C17_DEBUG") != "" {
+				fmt.Fprintln(os.Stderr, "C17 phis:", strings.Join(phis, "\n  "))
+			}
+			c.Decide(found, "C17-R4", "RoundTimeout|cumulative allowance = round·quick ≤ threshold, threshold·quick + (round−threshold)·slow above", c.P.Pos(ex.Ret.Pos()), "normal form matches",
+				"the per-round allowance is no longer round·quick up to the threshold and threshold·quick + (round − threshold)·slow above it: late rounds get a deadline before the role's deadline; got: "+clip(strings.Join(phis, " ;; ")))
+		}
+		// … and each form is selected by the matching side of round ≤ quickThreshold
+		nsel := 0
+		for _, b := range f.Blocks {
+			for _, in := range b.Instrs {
+				phi, ok := in.(*ssa.Phi)
+				if !ok {
+					continue
+				}
+				for i, e := range phi.Edges {
+					if i >= len(b.Preds) {
+						continue
+					}
+					form := canonArith(a.D.D(e))
+					var need string
+					switch form {
+					case "(p0.timeoutOptions.quick * time.Duration(int(p2)))":
+						need = "le(p2, p0.timeoutOptions.quickThreshold)"
+					case "((p0.timeoutOptions.quick * time.Duration(p0.timeoutOptions.quickThreshold)) + (p0.timeoutOptions.slow * time.Duration(int((p2 - p0.timeoutOptions.quickThreshold)))))":
+						need = "lt(p0.timeoutOptions.quickThreshold, p2)"
+					default:
+						continue
+					}
+					nsel++
+					pred := b.Preds[i]
+					_, has := a.FactsAt(pred.Instrs[len(pred.Instrs)-1]).Has(need)
+					c.Decide(has, "C17-R4", "RoundTimeout|allowance form "+fmt.Sprint(nsel)+" selected by "+need, c.P.Pos(pred.Instrs[len(pred.Instrs)-1].Pos()), need,
+						"the allowance "+form+" is used without "+need+": the quick and slow regimes are applied to the wrong rounds")
+				}
+			}
+		}
+		c.Min("C17-R4", nsel, 2, "allowance forms in RoundTimeout")
 		// the flat (non slot-anchored) timeouts are only for the remaining roles
 		for _, ex := range exits {
 			if strings.Contains(a.D.D(ex.Ret.Results[0]).String(), "time.Until(") {
